@@ -29,6 +29,7 @@ def run(ctx):
     q = ctx.quick
     total = 0
     for cfg, name, marker, every in (('MC_PlainMap_maps_quick.cfg' if q else 'MC_PlainMap_maps.cfg', 'nested maps', '\\"k\\":\\"pm\\"', 1 if q else 25),
+                                     ('MC_PlainMap_deep.cfg', 'deep maps (spines of 2-7 levels with a sibling leaf or sub-map at every level)', '\\"k\\":\\"pm\\"', 3 if q else 1),
                                      ('MC_PlainMap_strings.cfg', 'class strings', '\\"k\\":\\"ps\\"', 1)):
         r = ctx.tlc_must_pass('text', 'PlainMap', cfg, workers=8, timeout=3000, name='PlainMap: ' + name)
         shards, tot, taken = vlib.shard_lines(ctx, r['out'], NPROC, marker=marker, every=every, offset=ctx.seed)
